@@ -39,6 +39,45 @@ impl fmt::Debug for Detection {
     }
 }
 
+/// An identifier name or a condition: any YAML scalar, taken by its text, so that a rule loads
+/// the same way from text and from the `Value` of that text (where `true`, `null` or `1` are no
+/// longer strings).
+struct Scalar(String);
+
+impl<'de> Deserialize<'de> for Scalar {
+    fn deserialize<D>(deserializer: D) -> Result<Self, D::Error>
+    where
+        D: Deserializer<'de>,
+    {
+        struct ScalarVisitor;
+        impl<'de> Visitor<'de> for ScalarVisitor {
+            type Value = Scalar;
+            fn expecting(&self, formatter: &mut fmt::Formatter<'_>) -> fmt::Result {
+                formatter.write_str("a string")
+            }
+            fn visit_str<E: de::Error>(self, v: &str) -> Result<Scalar, E> {
+                Ok(Scalar(v.to_owned()))
+            }
+            fn visit_bool<E: de::Error>(self, v: bool) -> Result<Scalar, E> {
+                Ok(Scalar(v.to_string()))
+            }
+            fn visit_i64<E: de::Error>(self, v: i64) -> Result<Scalar, E> {
+                Ok(Scalar(v.to_string()))
+            }
+            fn visit_u64<E: de::Error>(self, v: u64) -> Result<Scalar, E> {
+                Ok(Scalar(v.to_string()))
+            }
+            fn visit_f64<E: de::Error>(self, v: f64) -> Result<Scalar, E> {
+                Ok(Scalar(v.to_string()))
+            }
+            fn visit_unit<E: de::Error>(self) -> Result<Scalar, E> {
+                Ok(Scalar("null".to_owned()))
+            }
+        }
+        deserializer.deserialize_any(ScalarVisitor)
+    }
+}
+
 impl<'de> Deserialize<'de> for Detection {
     fn deserialize<D>(deserializer: D) -> Result<Self, D::Error>
     where
@@ -57,13 +96,13 @@ impl<'de> Deserialize<'de> for Detection {
                 let mut identifiers: HashMap<String, Expression> = HashMap::new();
                 let mut identifiers_raw: HashMap<String, Yaml> = HashMap::new();
                 let mut expression = None;
-                while let Some(key) = map.next_key::<String>()? {
+                while let Some(Scalar(key)) = map.next_key::<Scalar>()? {
                     match key.as_ref() {
                         "condition" => {
                             if expression.is_some() {
                                 return Err(de::Error::duplicate_field("condition"));
                             }
-                            expression = Some(map.next_value::<String>()?);
+                            expression = Some(map.next_value::<Scalar>()?.0);
                         }
                         _ => {
                             if identifiers.contains_key(&key) {
